@@ -19,7 +19,9 @@ RULE = (
     "successors untouched. Contexts: for every accepted R-AVM execution whose depth-0 block sequence starts "
     "with the path, the admission predicates of C06-C09 hold at every block of its trace. Independence: the "
     "contexts of the function are identical whether it is built alone, before or after another function, or "
-    "twice. Non-interference: a structural snapshot of the contract's own graph is unchanged. Non-trivial = "
+    "twice. Non-interference: a structural snapshot of the contract's own graph is unchanged. Exactness (direct-"
+    "check programs): GroupSize sets of the function lie between the context-sensitive and context-insensitive "
+    "literal reading of the contract with the off-path edges removed. Non-trivial = "
     "path length >= 2 and the function shares a subroutine with the other function built; distinct by "
     "(source, path, order)."
 )
@@ -227,10 +229,61 @@ def check(case, no_loop_paths=False):
             "counters": {"accepted_executions": nacc, "executions_starting_with_path": nmatch}}
 
 
+def check_exact(case, no_loop_paths=False):
+    """GroupSize sets of the cut-out function are exact w.r.t. the literal reading of the contract with
+    the off-path edges removed (direct-check fragment)"""
+    from vf.rlit import Lit
+
+    g = RCFG(case)
+    path = case["path"]
+    if any(in_cycle(g, l) for l in path[:-1]):
+        return {"nontrivial": False, "key": None, "features": ["excluded_path_through_loop"], "counters": {"excluded_known_finding": 1}}
+    teal = adapter.parse(g.text)
+    idx_of = {b.entry_instr.line: b.idx for b in teal.bbs}
+    fn = build(teal, [idx_of[l] for l in path], "f")
+    fblocks = {b.entry_instr.line: b for b in fn.blocks if b.entry_instr.line < (1 << 16)}
+    lit = Lit(g, case["items"])
+    cut = set()
+    for k, l in enumerate(path[:-1]):
+        b = lit.block_by_line[l]
+        last = g.seq[g.blocks[b][-1]]
+        for sl in g.succ_lines(last.line):
+            if sl != path[k + 1]:
+                cut.add((b, lit.block_by_line[sl]))
+    lit.cut_edges = frozenset(cut)
+    where = f"path {path}\n{g.text}"
+    for s_ in range(1, 17):
+        cs, ci = lit.walks({"GroupSize": s_})
+        for bi, line in enumerate(lit.first_line):
+            fb = fblocks.get(line)
+            if fb is None:
+                if bi in cs:
+                    raise Violation("block-missing-from-function", f"block at line {line} lies on an accepting walk that starts with the path but is not in the function: {where}")
+                continue
+            sizes = fn.transaction_context(fb).group_sizes
+            if bi in cs and s_ not in sizes:
+                raise Violation("size-not-listed", f"block at line {line}: an accepting walk that starts with the path admits GroupSize={s_}, listed {sorted(sizes)}: {where}")
+            if s_ in sizes and bi not in ci:
+                raise Violation("size-listed-but-excluded", f"block at line {line}: GroupSize={s_} listed but no accepting walk that starts with the path admits it: {where}")
+    return {"nontrivial": len(path) >= 2, "key": case_hash([g.text, path]), "features": [f"len={len(path)}"]}
+
+
+@st.composite
+def exact_case(draw, disabled=()):
+    p = draw(semantic_program(profile="direct", disabled=disabled, max_stmts=10, focus=["GroupSize", "GroupIndex"]))
+    p = {k: p[k] for k in ("version", "items", "mode", "features", "structured")}
+    paths = main_paths(RCFG(p))
+    longer = [x for x in paths if len(x) >= 2]
+    p["path"] = draw(st.sampled_from(longer)) if longer and draw(st.integers(0, 4)) else draw(st.sampled_from(paths))
+    return p
+
+
 def components(tier, disabled):
     q = tier == "quick"
     nl = "dispatch_path_through_loop" in disabled
     return {
         "dispatch": {"strategy": dispatch_case(disabled), "check": lambda c: check(c, nl), "examples": 900 if q else 50000,
                      "sample": lambda c, i: {"path": c["path"], "order": c["order"], "source": RCFG(c).text}},
+        "exact": {"strategy": exact_case(disabled), "check": check_exact, "examples": 700 if q else 40000,
+                  "sample": lambda c, i: {"path": c["path"], "source": RCFG(c).text}},
     }
